@@ -106,6 +106,19 @@ SYMRT_HARNESS(C14_alloc) {
     case 5: { Linear_Expression e(SPARSE); e += a[0] * A; e += a[1] * Bv; e += 3 * Variable(5); Linear_Expression f(e); f += e; Constraint c(f >= 1); Constraint_System cs(SPARSE); cs.insert(c); cs.insert(e == 2); C_Polyhedron z(cs); (void) z.is_empty(); break; }
     case 6: { MIP_Problem mip(n, ph.constraints(), a[2] * A + Bv, MAXIMIZATION); (void) mip.solve(); break; }
     case 7: { Pointset_Powerset<C_Polyhedron> ps(ph); ps.add_disjunct(q); ps.pairwise_reduce(); break; }
+    case 9: { // NNC simplify_using_context_assign on disjoint arguments (MIP-based branch): the receiver must stay usable after a failure
+      NNC_Polyhedron x(ph), y(q); x.add_constraint(A < 0); y.add_constraint(A > 1);
+      try { (void) x.simplify_using_context_assign(y); }
+      catch (std::bad_alloc&) {
+        symrt::require(x.OK() && y.OK(), "C14 alloc op 9: OK() of the NNC arguments after the failure");
+        bool dims_ok = true; const Constraint_System& cs = x.constraints();
+        for (Constraint_System::const_iterator c = cs.begin(); c != cs.end(); ++c) if (c->space_dimension() > n) dims_ok = false;
+        symrt::require(dims_ok, "C14 alloc op 9: after the failure the receiver reports a constraint of a higher space dimension");
+        bool usable = true; try { NNC_Polyhedron z(x); (void) z.simplify_using_context_assign(y); (void) z.is_empty(); } catch (std::exception&) { usable = false; }
+        symrt::require(usable, "C14 alloc op 9: the receiver is not usable after the failure (retrying the call throws)");
+        throw;
+      }
+      break; }
     case 8: { Grid gr(n); gr.add_congruence((a[0] * A + 2 * Bv %= 1) / 3); gr.add_congruence((A - Bv %= 0) / 2); (void) gr.minimized_grid_generators(); break; }
     }
   };
@@ -114,7 +127,7 @@ SYMRT_HARNESS(C14_alloc) {
     q.add_constraint(a[2] * A + a[3] * Bv >= -1); q.add_constraint(A >= -3); q.add_constraint(Bv <= 2);
   };
   { // warm-up run without ledger: the library's pools of temporaries are filled once and legitimately stay allocated
-    C_Polyhedron ph(n), q(n); make(ph, q); body(ph, q); C_Polyhedron r(ph); r.intersection_assign(q); (void) (r == ph); (void) ph.OK(); }
+    C_Polyhedron ph(n), q(n); make(ph, q); body(ph, q); if (op == 9) { NNC_Polyhedron x(ph), y(q); x.add_constraint(A < 0); y.add_constraint(A > 1); NNC_Polyhedron z(x); (void) z.simplify_using_context_assign(y); (void) z.is_empty(); (void) x.OK(); } C_Polyhedron r(ph); r.intersection_assign(q); (void) (r == ph); (void) ph.OK(); }
   long base = symrt::live_blocks();
   symrt::faults_ledger(true);
   bool threw = false; std::string what;
